@@ -191,7 +191,11 @@ func main() {
 				continue
 			}
 			if strings.HasPrefix(l, "acctrace ") {
-				w.acctRace(o)
+				for _, f := range strings.Fields(l) {
+					if strings.HasPrefix(f, "sched=") {
+						w.acctRaceOne(o, strings.TrimPrefix(f, "sched="))
+					}
+				}
 				continue
 			}
 			if strings.HasPrefix(l, "legacy ") {
@@ -239,7 +243,7 @@ func main() {
 	case "d15":
 		w.d15(o)
 	case "acctrace":
-		w.acctRace(o)
+		w.acctRace(o, *n, r)
 	case "legacy":
 		w.legacy(o)
 	case "server":
